@@ -98,13 +98,7 @@ def handleApply (id : String) (args : List String) : String :=
       let plain : Option Obs := (findTag "plain=" rest).bind fun s => (parseObs s).map (·.1)
       let mutated := (findTag "mut=" rest) = some "1"
       let model := applyModel o ind d p
-      -- `move` from "/" puts the root's private `self` node itself into the tree; the sharing
-      -- this creates is not modelled (nodes are values).  Such pointers are outside every
-      -- property's domain except C04, which is judged on the real outcome.
-      let aliasSelf : Bool := match Impl.decodePatch p with
-        | .ok ops => ops.any fun op => op.kind = ascii "move" && op.frm = some [47]
-        | _ => false
-      let corr := aliasSelf || sameObs model obs
+      let corr := sameObs model obs
       -- the specification sees the un-indented output
       let plainObs : Obs := if ind.isEmpty then obs else plain.getD obs
       let s := specApply o d p
@@ -182,9 +176,7 @@ def handleAllow (id : String) (args : List String) : String :=
       | .ok ops =>
         let mOn := obsOf (Impl.applyBytes oOn [] d ops)
         let mOff := obsOf (Impl.applyBytes oOff [] d (eraseIdxs ops sk))
-        -- see handleApply: `move` from "/" creates sharing that the model does not represent
-        let aliasSelf : Bool := ops.any fun op => op.kind = ascii "move" && op.frm = some [47]
-        let corr := aliasSelf || (sameObs mOn on && sameObs mOff off)
+        let corr := sameObs mOn on && sameObs mOff off
         let sOn := specApply oOn d p
         let vSpec := c01 sOn on
         let vSame : Verdict :=
@@ -222,10 +214,7 @@ def handleTestTr (id : String) (args : List String) : String :=
     | some o, some d, some p, some p2, some (a, _), some (b, _) =>
       let mA := applyModel o [] d p
       let mB := applyModel o [] d p2
-      let aliasSelf : Bool := match Impl.decodePatch p with
-        | .ok ops => ops.any fun op => op.kind = ascii "move" && op.frm = some [47]
-        | _ => false
-      let corr := aliasSelf || (sameObs mA a && sameObs mB b)
+      let corr := sameObs mA a && sameObs mB b
       let v15 : Verdict :=
         match a with
         | .ok x => (match b with
